@@ -24,13 +24,14 @@
 // "readable points"); a model of the history is kept only as a diagnostic cross-check of that read.
 //
 // The whole check is built with tsdb.DefaultMaxPointsPerBlock = 2 (shim.json, constant replacement in the build
-// overlay): a series with 3 or 4 points in one TSM file has two blocks, so block-level and file-level filtering of an
-// export differ.
+// overlay): in the history family a series with 3 or 4 points in one TSM file has two blocks, so block-level and
+// file-level filtering of an export differ there too.
 //
-//	layouts      (clause 3 at block level, "layout family" below) every assignment of a slot subset to each of 2 or 3
-//	             series, written into ONE TSM file of a fresh tsm1.Engine, and Engine.Export of every range between
-//	             slot boundaries (incl. the empty ranges between two neighbouring slots); the *.tsm entries of the
-//	             archive are read with the real TSMReader and compared, point by point, with the layout.
+//	layouts      (clause 3 at block level, "layout family" below) every assignment of a (slot subset, split into
+//	             consecutive blocks) to each of 2 or 3 series, written block by block into ONE TSM file of a fresh
+//	             tsm1.Engine, and Engine.Export of every range between slot boundaries (incl. the empty ranges between
+//	             two neighbouring slots); the *.tsm entries of the archive are read with the real TSMReader and
+//	             compared, point by point, with the layout.
 package c38
 
 import (
@@ -49,13 +50,11 @@ import (
 	"testing"
 	"time"
 
-	"github.com/influxdata/influxdb/v2/models"
 	"github.com/influxdata/influxdb/v2/pkg/limiter"
 	"github.com/influxdata/influxdb/v2/tsdb"
 	"github.com/influxdata/influxdb/v2/tsdb/engine/tsm1"
 	"github.com/influxdata/influxdb/v2/tsdb/index/tsi1"
 	"github.com/influxdata/influxdb/v2/v1/services/meta"
-	"github.com/influxdata/influxql"
 	"verif/h/mini"
 	"verif/h/vlib"
 )
@@ -828,11 +827,14 @@ func (r *run) subsecond(v *verdict, add func(sig, format string, a ...any)) erro
 // layout family (clause 3 at block level): exports that cut through ONE TSM file holding several series with
 // different time extents and several blocks per series.
 //
-// A layout is one slot set per series: series i (tag t = layTag[i]; the TSM keys sort in index order) has a point at
-// slot k iff bit k of Masks[i] is set. All points are written in one batch and snapshotted into ONE TSM file; the
-// build replaces tsdb.DefaultMaxPointsPerBlock by 2 (shim.json), so a series with 3 or 4 points has two blocks. For
-// every range [cut(a), cut(b)], a <= b (a == b: the empty range between two slots), ExportShard is called and every
-// *.tsm entry of the archive is read with the real TSMReader. Reference model = the layout itself.
+// A layout gives, for each series i (tag t = layTag[i]; the TSM keys sort in index order), a slot subset AND a split
+// of that subset into consecutive blocks: every (subset, split) pair is enumerated, (3^N+1)/2 per series for N slots,
+// so a series has 1..N blocks of 1..N points, its blocks may span slots in which it has no point, and the extents of
+// the series of one file differ in every way (late-only series before early-only series in key order and vice
+// versa). The file is written block by block with the real TSMWriter (one Write call = one block, which is also how
+// compactions produce blocks of uneven sizes) as the only TSM file of a fresh tsm1.Engine. For every range
+// [cut(a), cut(b)], a <= b (a == b: the empty range between two slots), Engine.Export is called and every *.tsm entry
+// of the archive is read with the real TSMReader. Reference model = the layout itself.
 //
 // Inclusion rule demanded (from the statement: "an export of a time range contains exactly the points in that range"):
 // point granularity. must-include: every written point with start <= t <= end, once, with its value. must-exclude:
@@ -849,30 +851,54 @@ func layValue(ser, k int) float64 { return float64(1000 + 10*k + ser) }
 func layKey(ser int) string { return "m,t=" + layTag[ser] + "#!~#v" }
 
 type LayoutCase struct {
-	Slots int   `json:"slots"`
-	Masks []int `json:"masks"`
+	Slots int `json:"slots"`
+	// Series[i] = the blocks of series i in file order; a block is an ascending list of slots; blocks of a series
+	// are ascending and disjoint. An empty list = the series is not in the file.
+	Series [][][]int `json:"series"`
 }
 
 func (l LayoutCase) String() string {
 	var sb strings.Builder
-	for i, m := range l.Masks {
+	for i, blocks := range l.Series {
 		if i > 0 {
 			sb.WriteString(" ")
 		}
 		sb.WriteString(layTag[i] + "@{")
-		first := true
-		for k := 0; k < l.Slots; k++ {
-			if m&(1<<k) != 0 {
-				if !first {
+		for _, blk := range blocks {
+			sb.WriteString("[")
+			for j, k := range blk {
+				if j > 0 {
 					sb.WriteString(",")
 				}
 				fmt.Fprintf(&sb, "%d", k)
-				first = false
 			}
+			sb.WriteString("]")
 		}
 		sb.WriteString("}")
 	}
 	return sb.String()
+}
+
+// valid: 1..3 series, slots ascending over the blocks of a series and inside [0, Slots).
+func (l LayoutCase) valid() bool {
+	if l.Slots < 1 || l.Slots > maxSlots || len(l.Series) < 1 || len(l.Series) > len(layTag) {
+		return false
+	}
+	for _, blocks := range l.Series {
+		last := -1
+		for _, blk := range blocks {
+			if len(blk) == 0 {
+				return false
+			}
+			for _, k := range blk {
+				if k <= last || k >= l.Slots {
+					return false
+				}
+				last = k
+			}
+		}
+	}
+	return true
 }
 
 // layoutRanges: every [cut(a), cut(b)] with 0 <= a <= b <= n, widest first.
@@ -888,11 +914,6 @@ func layoutRanges(n int, empty bool) [][2]int {
 		}
 	}
 	return out
-}
-
-type srcBlock struct {
-	ser      int
-	min, max int64
 }
 
 type tv struct {
@@ -995,48 +1016,28 @@ func closeLayoutBase() {
 	}
 }
 
-func (b *layBase) newEngine() (string, *tsm1.Engine, error) {
+// newEngine creates the directories of a fresh engine, lets prepare put files into the data directory, and opens
+// a tsm1.Engine on them, wired the way tsdb.Shard does it.
+func (b *layBase) newEngine(prepare func(dataDir string) error) (string, *tsm1.Engine, error) {
 	b.n++
 	root := filepath.Join(b.root, fmt.Sprintf("e%d", b.n))
-	e := tsm1.NewEngine(1, b.idx, filepath.Join(root, "data"), filepath.Join(root, "wal"), b.sfile, b.opt).(*tsm1.Engine)
+	dataDir := filepath.Join(root, "data")
+	if err := os.MkdirAll(dataDir, 0o777); err != nil {
+		return "", nil, err
+	}
+	if err := prepare(dataDir); err != nil {
+		os.RemoveAll(root)
+		return "", nil, err
+	}
+	e := tsm1.NewEngine(1, b.idx, dataDir, filepath.Join(root, "wal"), b.sfile, b.opt).(*tsm1.Engine)
 	// what tsdb.Shard does for a store with EngineOptions.CompactionDisabled: the engine never starts its background
-	// snapshot/compaction goroutines (explicit WriteSnapshot calls still work)
+	// snapshot/compaction goroutines
 	e.SetEnabled(false)
 	if err := e.Open(context.Background()); err != nil {
 		os.RemoveAll(root)
 		return "", nil, err
 	}
 	return root, e, nil
-}
-
-// write does what tsdb.Shard does before handing points to the engine (field and series registration), then
-// Engine.WritePoints.
-func (b *layBase) write(e *tsm1.Engine, series, field string, pts []tv) error {
-	name, tags := models.ParseKey([]byte(series))
-	var ps []models.Point
-	for _, p := range pts {
-		mp, err := models.NewPoint(name, tags, models.Fields{field: p.v}, time.Unix(0, p.t))
-		if err != nil {
-			return err
-		}
-		ps = append(ps, mp)
-	}
-	f, created, err := e.MeasurementFields([]byte(name)).CreateFieldIfNotExists(field, influxql.Float)
-	if err != nil {
-		return err
-	}
-	if created {
-		ch := tsdb.FieldChanges{&tsdb.FieldChange{FieldCreate: tsdb.FieldCreate{Measurement: []byte(name), Field: f}, ChangeType: tsdb.AddMeasurementField}}
-		if err := e.MeasurementFieldSet().Save(ch); err != nil {
-			return err
-		}
-	}
-	for _, p := range ps {
-		if err := e.CreateSeriesIfNotExists(p.Key(), p.Name(), p.Tags()); err != nil {
-			return err
-		}
-	}
-	return e.WritePoints(context.Background(), ps)
 }
 
 type lverdict struct {
@@ -1081,19 +1082,10 @@ func fmtTV(keys []string, m map[string][]tv) string {
 
 // executeLayout builds the layout in one TSM file and checks the export of every range.
 func executeLayout(lc LayoutCase, ranges [][2]int) (v lverdict, err error) {
-	if tsdb.DefaultMaxPointsPerBlock != 2 {
-		return v, fmt.Errorf("the small-block build constant is not in effect (tsdb.DefaultMaxPointsPerBlock = %d, want 2: shim.json)", tsdb.DefaultMaxPointsPerBlock)
-	}
-	pts := make([][]tv, len(lc.Masks))
 	var wantKeys []string
-	for s, m := range lc.Masks {
-		if m != 0 {
+	for s, blocks := range lc.Series {
+		if len(blocks) != 0 {
 			wantKeys = append(wantKeys, layKey(s))
-		}
-		for k := 0; k < lc.Slots; k++ {
-			if m&(1<<k) != 0 {
-				pts[s] = append(pts[s], tv{slotT(k), layValue(s, k)})
-			}
 		}
 	}
 	if len(wantKeys) == 0 {
@@ -1104,23 +1096,41 @@ func executeLayout(lc LayoutCase, ranges [][2]int) (v lverdict, err error) {
 	if err != nil {
 		return v, err
 	}
-	root, e, err := base.newEngine()
+	// the source file is written block by block with the real TSMWriter (one Write call = one block), then a fresh
+	// engine is opened on the directory
+	root, e, err := base.newEngine(func(dataDir string) error {
+		fh, err := os.OpenFile(filepath.Join(dataDir, tsm1.DefaultFormatFileName(1, 1)+"."+tsm1.TSMFileExtension), os.O_CREATE|os.O_RDWR|os.O_EXCL, 0o666)
+		if err != nil {
+			return err
+		}
+		w, err := tsm1.NewTSMWriter(fh)
+		if err != nil {
+			fh.Close()
+			return err
+		}
+		for s, blocks := range lc.Series {
+			for _, blk := range blocks {
+				var vals []tsm1.Value
+				for _, k := range blk {
+					vals = append(vals, tsm1.NewValue(slotT(k), layValue(s, k)))
+				}
+				if err := w.Write([]byte(layKey(s)), vals); err != nil {
+					w.Close()
+					return err
+				}
+			}
+		}
+		if err := w.WriteIndex(); err != nil {
+			w.Close()
+			return err
+		}
+		return w.Close()
+	})
 	if err != nil {
 		return v, err
 	}
 	defer os.RemoveAll(root)
 	defer e.Close(false)
-	for s := range lc.Masks {
-		if len(pts[s]) == 0 {
-			continue
-		}
-		if err := base.write(e, "m,t="+layTag[s], "v", pts[s]); err != nil {
-			return v, err
-		}
-	}
-	if err := e.WriteSnapshot(); err != nil {
-		return v, err
-	}
 	dir := filepath.Join(root, "data")
 	add := func(sig, format string, a ...any) {
 		v.probs = append(v.probs, problem{sig, strings.ReplaceAll(strings.ReplaceAll(fmt.Sprintf(format, a...), root, "<fixture-dir>"), base.root, "<fixture-base>")})
@@ -1159,19 +1169,26 @@ func executeLayout(lc LayoutCase, ranges [][2]int) (v lverdict, err error) {
 		}
 		v.maxBlocks = max(v.maxBlocks, len(srcBlocks[key]))
 	}
-	// cross-check of the on-disk source against the layout (harness sanity)
-	for s, m := range lc.Masks {
+	// cross-check of the on-disk source against the layout (harness sanity): same blocks, same points
+	for s, blocks := range lc.Series {
+		key := layKey(s)
+		if len(blocks) != len(srcBlocks[key]) {
+			return v, fmt.Errorf("layout %v: source TSM file holds %d blocks of %s, expected %d", lc, len(srcBlocks[key]), key, len(blocks))
+		}
 		n := 0
-		for k := 0; k < lc.Slots; k++ {
-			if m&(1<<k) != 0 {
+		for i, blk := range blocks {
+			if b := srcBlocks[key][i]; b[0] != slotT(blk[0]) || b[1] != slotT(blk[len(blk)-1]) {
+				return v, fmt.Errorf("layout %v: block %d of %s is [%s,%s] in the source TSM file", lc, i, key, relS(b[0]), relS(b[1]))
+			}
+			for _, k := range blk {
 				n++
-				if got, ok := written[layKey(s)][slotT(k)]; !ok || got != layValue(s, k) {
-					return v, fmt.Errorf("layout %v: source TSM file does not hold %s s%d=%v", lc, layKey(s), k, layValue(s, k))
+				if got, ok := written[key][slotT(k)]; !ok || got != layValue(s, k) {
+					return v, fmt.Errorf("layout %v: source TSM file does not hold %s s%d=%v", lc, key, k, layValue(s, k))
 				}
 			}
 		}
-		if n != len(written[layKey(s)]) {
-			return v, fmt.Errorf("layout %v: source TSM file holds %d points of %s, expected %d", lc, len(written[layKey(s)]), layKey(s), n)
+		if n != len(written[key]) {
+			return v, fmt.Errorf("layout %v: source TSM file holds %d points of %s, expected %d", lc, len(written[key]), key, n)
 		}
 	}
 	{
@@ -1392,17 +1409,45 @@ func executeLayout(lc LayoutCase, ranges [][2]int) (v lverdict, err error) {
 	return v, nil
 }
 
-// layouts visits every assignment of a slot subset to each of nSer series, simplest (fewest points) first within the
-// lexicographic order of the masks.
+// seriesLayouts lists every (slot subset, split of the subset into consecutive blocks) of one series over n slots:
+// (3^n+1)/2 entries, the empty series first, then by increasing first difference (slot absent < slot continues the
+// current block < slot starts a new block).
+func seriesLayouts(n int) [][][]int {
+	var out [][][]int
+	var rec func(k int, cur [][]int)
+	rec = func(k int, cur [][]int) {
+		if k == n {
+			cp := make([][]int, len(cur))
+			for i, b := range cur {
+				cp[i] = append([]int(nil), b...)
+			}
+			out = append(out, cp)
+			return
+		}
+		rec(k+1, cur) // absent
+		if len(cur) > 0 {
+			last := cur[len(cur)-1]
+			cur[len(cur)-1] = append(last, k) // continues the current block
+			rec(k+1, cur)
+			cur[len(cur)-1] = last
+		}
+		rec(k+1, append(cur, []int{k})) // starts a new block
+	}
+	rec(0, nil)
+	return out
+}
+
+// layouts visits every assignment of a series layout to each of nSer series (lexicographic in seriesLayouts order).
 func layouts(nSer, nSlots int, visit func(LayoutCase) bool) bool {
-	masks := make([]int, nSer)
+	per := seriesLayouts(nSlots)
+	cur := make([][][]int, nSer)
 	var rec func(i int) bool
 	rec = func(i int) bool {
 		if i == nSer {
-			return visit(LayoutCase{Slots: nSlots, Masks: append([]int(nil), masks...)})
+			return visit(LayoutCase{Slots: nSlots, Series: append([][][]int(nil), cur...)})
 		}
-		for m := 0; m < 1<<nSlots; m++ {
-			masks[i] = m
+		for _, sl := range per {
+			cur[i] = sl
 			if !rec(i + 1) {
 				return false
 			}
@@ -1412,20 +1457,25 @@ func layouts(nSer, nSlots int, visit func(LayoutCase) bool) bool {
 	return rec(0)
 }
 
-type layoutFamily struct{ nSer, nSlots int }
+// layoutFamily: every layout of nSer series x nSlots slots; empty: also the empty ranges between neighbouring slots;
+// late: visited after the history family (the big thorough family, so that a wall-budget cap hits it first).
+type layoutFamily struct {
+	nSer, nSlots int
+	empty, late  bool
+}
 
 func layoutFamilies(thorough bool) []layoutFamily {
 	if thorough {
-		return []layoutFamily{{2, 4}, {3, 4}, {2, 5}}
+		return []layoutFamily{{3, 2, true, false}, {2, 4, true, false}, {3, 3, true, false}, {2, 5, true, true}}
 	}
-	return []layoutFamily{{2, 4}, {3, 3}}
+	return []layoutFamily{{3, 2, true, false}, {2, 4, false, false}}
 }
 
 func replayLayout(cs Case) (bool, string) {
 	lc := *cs.Layout
 	var sb strings.Builder
-	fmt.Fprintf(&sb, "layout (one TSM file, tsdb.DefaultMaxPointsPerBlock = 2): %v\n", lc)
-	if lc.Slots < 1 || lc.Slots > maxSlots || len(lc.Masks) < 1 || len(lc.Masks) > len(layTag) {
+	fmt.Fprintf(&sb, "layout (one TSM file, blocks in brackets): %v\n", lc)
+	if !lc.valid() {
 		fmt.Fprintf(&sb, "malformed layout case\n")
 		return false, sb.String()
 	}
@@ -1489,7 +1539,7 @@ func runLayout(c *vlib.Ctx, lc LayoutCase, ranges [][2]int) {
 	for _, o := range v.outcomes {
 		c.Outcome(o)
 	}
-	if v.nontrivial && v.maxBlocks >= 2 && len(lc.Masks) >= 2 && lc.Masks[0] != lc.Masks[1] && layoutSamples < 2 && c.WantSample() {
+	if v.nontrivial && v.maxBlocks >= 2 && len(lc.Series) >= 2 && len(lc.Series[0]) != len(lc.Series[1]) && layoutSamples < 2 && c.WantSample() {
 		layoutSamples++ // leave room for samples of the history family
 		c.Sample(map[string]any{"layout": lc.String(), "source_file": v.fileDesc, "exports": len(ranges), "exports_filtering_a_partially_overlapping_file": v.filtered, "problems": len(v.probs)})
 	}
@@ -1564,7 +1614,7 @@ func hasWrite(h []string) bool {
 func TestCheck(t *testing.T) {
 	vlib.Main(t, &vlib.Check{
 		ID: "C38", Level: "exploration",
-		Rule: "(A, layout family, visited first) every layout = one slot subset per series for S series x N slots (quick: 2 series x 4 slots = 256 layouts and 3 series x 3 slots = 512 layouts; thorough: 2x4, 3 series x 4 slots = 4096 layouts and 2 series x 5 slots = 1024 layouts; series m,t=a < m,t=b < m,t=c in TSM key order, float field v, value = 1000+10*slot+series) is written in one batch into ONE TSM file of a fresh tsm1.Engine (build constant tsdb.DefaultMaxPointsPerBlock = 2: a series with 3..5 points has 2..3 blocks, so series of one file have different extents AND several blocks, in every key order: late-only series before early-only series and vice versa); per layout Engine.Export(start,end) runs for EVERY pair of slot boundaries start <= end (N=4: 10 non-empty ranges + 5 empty ranges between neighbouring slots; N=3: 10; N=5: 21), i.e. ranges covering the file, cutting through it on the left/right/both sides, lying in a gap of the file and lying outside it; every *.tsm entry of the tar archive is read with the real TSMReader and compared with the layout at POINT granularity: every written point with start <= t <= end must be present once with its value (missing-points / duplicated-points / wrong-values), every other point must be absent (extra point whose block intersects the range = the registered block-granularity finding export/extra-points/tombstones=false,partial=true; extra point of a block outside the range, or a point never written, have their own signatures), Export must not fail. non-trivial layouts = at least 2 series with points and at least one range that only partially overlaps the file (the file is rewritten block by block). " +
+		Rule: "(A, layout family, visited first) a layout gives each of S series a slot subset of N slots AND a split of that subset into consecutive blocks; EVERY (subset, split) pair is enumerated, (3^N+1)/2 per series (quick: 3 series x 2 slots = 125 layouts and 2 series x 4 slots = 41^2 = 1681 layouts; thorough: also 3 series x 3 slots = 14^3 = 2744 layouts and, visited after the history family, 2 series x 5 slots = 122^2 = 14884 layouts; series m,t=a < m,t=b < m,t=c in TSM key order, float field v, value = 1000+10*slot+series). So a series has 1..N blocks of 1..N points, blocks may span slots without a point, and the series of one file have different extents in every key order (late-only series before early-only series and vice versa). The layout is written block by block with the real TSMWriter as the ONLY TSM file of a fresh tsm1.Engine; per layout Engine.Export(start,end) runs for EVERY pair of slot boundaries start <= end (N=4: 10 non-empty ranges + 5 empty ranges between neighbouring slots - quick leaves the 5 empty ones to the N=2 family; N=2: 3+3; N=3: 6+4; N=5: 15+6), i.e. ranges covering the file, cutting through it on the left/right/both sides, lying strictly inside one block, lying in a gap of the file and lying outside it; every *.tsm entry of the tar archive is read with the real TSMReader and compared with the layout at POINT granularity: every written point with start <= t <= end must be present once with its value (missing-points / duplicated-points / wrong-values), every other point must be absent (extra point whose block intersects the range = the registered block-granularity finding export/extra-points/tombstones=false,partial=true; extra point of a block outside the range, or a point never written, have their own signatures), Export must not fail. non-trivial layouts = at least 2 series with points and at least one range that only partially overlaps the file (the file is rewritten block by block). " +
 			"(B, history family) every history of length 1..3 (quick: 399 histories) resp. 1..4 plus every history of length 5 over {wL,wH,dM,s,c} that starts with a write (thorough: 2800 + 1250 histories) over the 7 operations {wL: write A@slots0,1 + B@slot0; wH: write A@slots2,3 + B@slot3; wA: (over)write A@slots0-3; dM: delete [slot1,slot2] of all series; dB: delete series B; s: snapshot cache->TSM; c: snapshot + full compaction} " +
 			"on a fresh bucket (series m,t=a and m,t=b, float field v, 4 time slots in one shard, value = 100*step+10*slot+series so every write is distinguishable; blocks of at most 2 points, so wA gives series A two blocks per file); per history: (1) BackupShard(since=0) -> RestoreShard into an empty shard, reads compared; (2) BackupShard(since) for since = T(j), T(j)+30min, j=0..n+1 with file mtimes set by os.Chtimes to the step of their last content change, archive must contain every later-changed *.tsm/*.tombstone file byte-identically; (2b, sub-second placements) every tracked file F in turn gets the mtime T = T(step of F) + d for d in {0, 1ns, 500ms, 999999999ns} (os.Chtimes with nanosecond precision, read back with os.Stat; the other files keep their whole-hour step time) and BackupShard(since) runs for since in {T-1s, T-1ms, T-1ns, T, T+1ns, T+1s} (24 backups per file): the archive must contain a tracked file, byte-identically, iff its mtime is after since; (3) ExportShard for every one of the 10 ranges between slot boundaries (quick: the 6 ranges all, first half, second half, middle, first slot, last slot) -> ImportShard into an empty shard, reads compared with the source points in the range. " +
 			"non-trivial = histories that contain a write (a shard exists); distinct by construction.",
@@ -1574,9 +1624,10 @@ func TestCheck(t *testing.T) {
 			"family (2b) models 'the file changed at T' by setting its mtime to T with nanosecond precision (tmpfs keeps nanosecond mtimes; the value is read back and a placement that the file system rounds is not judged: outcome class file-system-rounds-mtimes). 'changed after since' is mtime > since at full precision, also when both fall into the same wall-clock second. The converse direction (a tracked file with mtime <= since is NOT in the incremental archive) is what makes the backup incremental; it has its own signature subsecond/unchanged-file-archived",
 			"export range bounds lie between the time slots, so the statement's silence on inclusive/exclusive range ends does not matter",
 			"inclusion rule of an export, taken from the statement ('contains exactly the points in that range'): POINT granularity - a point is required iff start <= t <= end and forbidden otherwise; nothing is demanded about blocks. The unchanged code keeps every block whose [min,max] intersects the range whole; the out-of-range points this drags in are reported under the signature of the already registered finding (export/extra-points/tombstones=false,partial=true) in both families, every other difference has its own signature. An Export call that returns an error for a range is a violation (export-error), as in the history family",
-			"the build replaces the constant tsdb.DefaultMaxPointsPerBlock (1000) by 2 (shim.json 'consts', the same device as C03) so that several blocks per series and file are reachable with <= 5 points; the layout family refuses to run (harness error) if the constant is not 2. Block extents used to CLASSIFY extra points are read from the source TSM file's index with the real TSMReader (observation of the layout), the expected content comes from the layout alone",
-			"the layout family calls tsm1.Engine.Export directly (tsdb.Store.ExportShard -> Shard.Export is a pass-through that the history family covers) on a fresh engine per layout; the engines of one process share one real SeriesFile + tsi1 index (only the <= 3 series keys are registered there, Export never consults them) and are opened with SetEnabled(false) as tsdb.Shard does for a store with compactions disabled, so the file set is exactly the one snapshot file the harness wrote (checked: exactly one *.tsm, its keys and points equal the layout, else harness error)",
-			"layout family: one TSM file per layout, no tombstones, no cache contents at export time, float values only; multi-file shards, tombstones and compacted files are the history family's part (2 series)",
+			"the build replaces the constant tsdb.DefaultMaxPointsPerBlock (1000) by 2 (shim.json 'consts', the same device as C03) so that the history family reaches several blocks per series and file with 4 points; the check refuses to run (harness error) if the constant is not 2. The layout family does not depend on it: its blocks are written explicitly (TSMWriter.Write = one block)",
+			"layout family: the source file is built with the repo's TSMWriter, not through the write path (the subject is Export); it is read back with the real TSMReader before the exports and must hold exactly the keys, blocks and points of the layout (else harness error). Block extents used to CLASSIFY extra points come from the layout; the expected content comes from the layout alone",
+			"the layout family calls tsm1.Engine.Export directly (tsdb.Store.ExportShard -> Shard.Export is a pass-through that the history family covers) on a fresh engine per layout; the engines of one process share one real (empty) SeriesFile + tsi1 index, which Export never consults, and are opened with SetEnabled(false) as tsdb.Shard does for a store with compactions disabled, so the file set is exactly the one file the harness wrote",
+			"layout family: one TSM file per layout, no tombstones, empty cache and WAL, float values only; multi-file shards, tombstones, cache contents and engine-compacted files are the history family's part (2 series)",
 			"tsi1.DefaultPartitionN is set to 1 (the INFLUXDB_EXP_TSI_PARTITIONS knob) to make the ~12 shard creations per history affordable",
 			"ImportShard schedules a full compaction (background) on the import target; the target is read once right after the import and discarded",
 			"the source shard's compaction PLANNER is replaced by one that never plans (Engine.CompactionPlan is an exported injection point): a delete starts the shard's background compaction goroutine although the fixture disabled compactions, and it would compact tombstoned files one wall-clock second later, in the middle of the checks. Compactions are the explicit 'c' operations",
@@ -1600,27 +1651,43 @@ func TestCheck(t *testing.T) {
 			if c.Quick() {
 				exports = [][2]int{{0, 4}, {0, 2}, {2, 4}, {1, 3}, {0, 1}, {3, 4}}
 			}
+			if tsdb.DefaultMaxPointsPerBlock != 2 {
+				c.HarnessError(fmt.Sprintf("the small-block build constant is not in effect (tsdb.DefaultMaxPointsPerBlock = %d, want 2: shim.json)", tsdb.DefaultMaxPointsPerBlock))
+				return
+			}
+			c.Note("tsdb.DefaultMaxPointsPerBlock", fmt.Sprint(tsdb.DefaultMaxPointsPerBlock))
 			var idx int64
 			defer closeLayoutBase()
-			// layout family first (simplest: one write, one file)
-			for _, lf := range layoutFamilies(c.Thorough()) {
-				rs := layoutRanges(lf.nSlots, true)
-				complete := layouts(lf.nSer, lf.nSlots, func(lc LayoutCase) bool {
-					idx++
-					if !c.Mine(idx) {
-						return true
+			runLayouts := func(late bool) bool {
+				for _, lf := range layoutFamilies(c.Thorough()) {
+					if lf.late != late {
+						continue
 					}
-					if c.Expired() {
+					rs := layoutRanges(lf.nSlots, lf.empty)
+					complete := layouts(lf.nSer, lf.nSlots, func(lc LayoutCase) bool {
+						idx++
+						if !c.Mine(idx) {
+							return true
+						}
+						if c.Expired() {
+							return false
+						}
+						runLayout(c, lc, rs)
+						return true
+					})
+					if !complete {
+						c.Cap(fmt.Sprintf("wall budget: a shard stopped inside the layout family %d series x %d slots (visited in enumeration order; the families before it, incl. the history family for a late one, are complete in that shard)", lf.nSer, lf.nSlots))
 						return false
 					}
-					runLayout(c, lc, rs)
-					return true
-				})
-				if !complete {
-					c.Cap(fmt.Sprintf("wall budget: a shard stopped inside the layout family %d series x %d slots (visited in lexicographic order of the slot sets)", lf.nSer, lf.nSlots))
-					return
 				}
+				return true
 			}
+			// small layout families first (simplest: one file, no history), the big thorough one after the histories
+			t0 := time.Now()
+			if !runLayouts(false) {
+				return
+			}
+			c.Logf("shard %d: early layout families done after %v (diagnostic only)", c.Shard, time.Since(t0).Round(time.Millisecond))
 			for _, fm := range fams {
 				complete := histories(fm.d, fm.alphabet, fm.first, func(h []string) bool {
 					idx++
@@ -1638,6 +1705,7 @@ func TestCheck(t *testing.T) {
 					return
 				}
 			}
+			runLayouts(true)
 		},
 		Replay: func(c *vlib.Ctx, raw json.RawMessage) (bool, string) {
 			var cs Case
